@@ -89,7 +89,7 @@ def run(ctx: common.Ctx):
     jobs = [(fn, d, mode) for fn in fns for d in ALL_DTYPES + ["struct"] for mode in ("lazy", "eager")]
     if ctx.tier == "quick":
         jobs = [j for j in jobs if j[2] == "lazy" or j[1] in ("utf8", "nutf8", "bool", "nbool", "struct", "int32", "float64")]
-    outs2 = tables.pmap(other_row, jobs, chunk=16)
+    outs2 = tables.pmap(other_row, jobs, chunk=16, strict=True)
     for (fn, d, mode), o in zip(jobs, outs2):
         law = other_law(fn, d)
         ctx.case(("other", fn, d, mode), law == "raises",
